@@ -138,6 +138,10 @@ func init() {
 		if t, ok := a[1].(IfaceV); ok && t.T != nil {
 			if p, ok := t.V.(Ptr); ok && p.Obj != nil && p.Obj.Aux == "transformer:bomoverride" {
 				strip = true
+				// a transformer is stateful: NewReader resets it and every Read drives it
+				if e.curFoot != nil {
+					e.curFoot.write(Ptr{Obj: p.Obj}, e)
+				}
 			}
 		}
 		o := e.newObj(StructV{}, nil)
